@@ -1,4 +1,4 @@
 #!/bin/sh
 # re-run every kept seeded change against the quick check of the property it targets (4 at a time)
 cd "$(dirname "$0")/.."
-ls -d seeded/*/ | sed 's|seeded/||; s|/||' | xargs -P 4 -I{} sh -c 'p=$(echo {} | cut -c1-3); r=$(tools/try_mutant.sh $(pwd)/seeded/{}/patch.diff $p 2>&1 | tail -1 | cut -c1-150); echo "{} $r"'
+ls -d seeded/C*/ | sed 's|seeded/||; s|/||' | xargs -P 4 -I{} sh -c 'p=$(echo {} | cut -c1-3); r=$(tools/try_mutant.sh $(pwd)/seeded/{}/patch.diff $p 2>&1 | tail -1 | cut -c1-150); echo "{} $r"'
